@@ -77,7 +77,7 @@ def register(claim, na):
           "forwarded collider pairs and seeds; R-INFL (293 pair/side obligations: the radius is inflated "
           "iff both supports are specialised and radius-free - a mismatch flips the Nesterov booleans by a full radius >> "
           "delta); R-DISPATCH, R-DTREE, R-TUPLEROLE; exit discipline of all loops (R-LOOP; mpr._refine_portal is TOLERANCE, "
-          "termination not proved); running-minimum chains of the Jolt sub-solvers store the new minimum (R-RUNMIN). Does not decide the delta band or agreement on concrete inputs.", "DESIGN.md §4 C02")
+          "termination not proved); running-minimum chains of the Jolt sub-solvers store the new minimum (R-RUNMIN); every branch of the libccd simplex refinement keeps exactly the feature its next search direction is computed from, and the tetrahedron case keeps the face whose side test failed (R-DOSIMPLEX, symbolic row tracking). Does not decide the delta band or agreement on concrete inputs.", "DESIGN.md §4 C02")
     claim("C08", AST + " + by-construction sign/unit lattice over return paths (engine signs)",
           "Decides: depth >= 0 and direction = unit-or-zero BY CONSTRUCTION on every return path of mpr_penetration and its "
           "three helpers, zero vector on touching contact, depth/direction from the closest point of the portal face to the "
@@ -147,7 +147,7 @@ def register(claim, na):
           "(R-TRIPLE, R-ROLE, R-ROLEAGREE) - i.e. '|p1-p2| = d' and 'points lie on the respective primitives' hold RELATIVE TO "
           "THE CALLEES; every loop of the package is CAP/STRUCT (R-HANG: 'never hang' is fully decided for this package); calls "
           "into explicitly typed helpers are accepted (R-EAGER); local-frame evaluation is frame consistent and results are "
-          "world-frame points (R-FRAME); returned distances and points have length degree 1 (R-RETDEGREE); the two halves of the line-to-box case analysis are mirror images under the axis swap (R-MIRROR), all 8 sign patterns of the direction reach the case function that moves along exactly the positive axes and clamps the zero axes (R-CASEDISPATCH), and _case_no_zeros hands _box_face the axis that won all pairwise comparisons (R-TOURNAMENT), the branches of _box_face mirror / re-use each other and each of its 9 leaves uses one offset per axis in delta, squared distance and stored box point (R-BOXFACE); a division by a vector component with a computed index first selects a non-zero component (R-SELCOMP); math.sqrt arguments are >= 0 by construction (R-SQRTDOMAIN); running-minimum chains store the new minimum (R-RUNMIN). Does not decide membership of arithmetically "
+          "world-frame points (R-FRAME); returned distances and points have length degree 1 (R-RETDEGREE); the two halves of the line-to-box case analysis are mirror images under the axis swap (R-MIRROR), all 8 sign patterns of the direction reach the case function that moves along exactly the positive axes and clamps the zero axes (R-CASEDISPATCH), and _case_no_zeros hands _box_face the axis that won all pairwise comparisons (R-TOURNAMENT), the branches of _box_face mirror / re-use each other and each of its 9 leaves uses one offset per axis in delta, squared distance and stored box point (R-BOXFACE); a division by a vector component with a computed index first selects a non-zero component (R-SELCOMP); points returned as closest points of a SEGMENT are start + p*d with p confined to [0,1] resp. [0,L] on every path that reaches the construction (R-ONSEGMENT, forward must-analysis with branch refinement: the 'lies on its primitive' clause is decided for segments); local coordinates of centred shapes are clipped to the symmetric half-size interval (R-CLIPSYM); math.sqrt arguments are >= 0 by construction (R-SQRTDOMAIN); running-minimum chains store the new minimum (R-RUNMIN). Does not decide membership of arithmetically "
           "constructed leaf points within 1e-9 L, NaN-freedom, or 'never raises' beyond signature conformance.", "DESIGN.md §4 C10")
     claim("C11", "feature-enumeration completeness rules + convexity-table rule for the clamp idiom + role-flow (E6) + degree "
                  "inference (E3)",
